@@ -327,6 +327,9 @@ var mu sync.Mutex
 // read by the single-threaded driver right after Run).
 var CloseHung bool
 
+// unsettled counts the times the pool counters did not settle within the deadline (guarded by mu).
+var unsettled int
+
 const wait = 3 * time.Second
 
 func gid() int64 {
@@ -482,7 +485,16 @@ func Run(next func(v *View) *Action) (Script, []Obs, []int) {
 		}
 	}
 	counts := func(o *Obs, wantIdle func(conns, idle int) bool) {
-		deadline := time.Now().Add(wait)
+		d := wait
+		if unsettled >= 3 {
+			d = 200 * time.Millisecond // the code under test keeps missing this condition: stop paying 3 s per case
+		}
+		deadline := time.Now().Add(d)
+		defer func() {
+			if time.Now().After(deadline) {
+				unsettled++
+			}
+		}()
 		for {
 			o.Conns, o.Idle = t.VerifConnCounts()
 			o.Open = 0
